@@ -346,6 +346,12 @@ func runSeqhash(w *mon.W, c05 bool) {
 		case 1: // reverse-complement palindrome
 			h := randString(r, alpha, n/2+1)
 			s = h + oracle.MustRevComp(h)
+			if r.Intn(2) == 0 {
+				// inverted terminal repeat around a payload: the two strands share a long prefix without being equal
+				x := randString(r, alpha, 1+r.Intn(200))
+				s = x + randString(r, alpha, 1+r.Intn(100)) + oracle.MustRevComp(x)
+				w.Add("inverted_terminal_repeat_inputs", 1)
+			}
 		default:
 			s = randString(r, alpha, n)
 		}
